@@ -78,8 +78,11 @@ def bipartite_vertex_cover(bigraph, algo="Hopcroft-Karp"):
     """
     if algo == "Hopcroft-Karp":
         coord = [(irow,icol) for irow,cols in enumerate(bigraph) for icol in cols]
-        coord = np.array(coord)
-        graph = csr_matrix((np.ones(coord.shape[0]),(coord[:,0],coord[:,1])))
+        coord = np.array(coord, dtype=int).reshape(-1, 2)
+        # pass the shape explicitly: isolated trailing vertices in U and edgeless graphs
+        # can not be inferred from the coordinates
+        shape = (len(bigraph), coord[:,1].max() + 1 if len(coord) > 0 else 0)
+        graph = csr_matrix((np.ones(coord.shape[0]),(coord[:,0],coord[:,1])), shape=shape)
         matchV = maximum_bipartite_matching(graph, perm_type='row')
         matchV = [None if x==-1 else x for x in matchV]
         nU, nV = graph.shape
